@@ -358,6 +358,9 @@ type CR3Opts struct {
 	Brands        int  // further compatible brands in ftyp (cameras write two)
 	BrandsNoMajor bool // the compatible brands do not repeat the major brand
 	TopExtra      bool // unknown/free boxes between any two top-level boxes (also right after ftyp)
+	// ShortLead: 1 = the CNCV box in front of the CMT boxes holds fewer bytes than the 30 of a
+	// compressor version string, 2 = the CTBO box holds fewer than its 4-byte count
+	ShortLead int
 	// CTBO: 0 = four records and count 4; otherwise records = 4 + CTBO%4 (index fields 1, 2, ...) and
 	// the count field = records + CTBO/4 (a count that says more than the box holds when CTBO >= 4)
 	CTBO int
@@ -380,6 +383,9 @@ func DrawCR3(l *core.Lane, o CR3Opts) *CR3 {
 	// --- Canon metadata uuid
 	var inner []byte
 	cncv := []byte("CanonCR3_001/00.09.00/00.00.00")
+	if o.ShortLead == 1 {
+		cncv = cncv[:l.Intn(12)]
+	}
 	inner = append(inner, Box("CNCV", cncv)...)
 	if o.Surround && l.Bool() {
 		inner = append(inner, Box("CCTP", be32(0), be32(1), be32(3), Box("CCDT", make([]byte, 16)), Box("CCDT", make([]byte, 16)))...)
@@ -396,6 +402,9 @@ func DrawCR3(l *core.Lane, o CR3Opts) *CR3 {
 		ctbo = append(ctbo, be32(uint32(l.Intn(1<<20)))...)
 		ctbo = append(ctbo, make([]byte, 4)...)
 		ctbo = append(ctbo, be32(uint32(l.Intn(1<<20)))...)
+	}
+	if o.ShortLead == 2 {
+		ctbo = ctbo[:l.Intn(4)]
 	}
 	ctboRel := len(inner) + 8
 	inner = append(inner, Box("CTBO", ctbo)...)
@@ -792,7 +801,9 @@ func DrawHEIFOpts(l *core.Lane, tiff []byte, surround bool, ho HEIFOpts) *HEIF {
 			h.Map = append(h.Map, FieldSpan{"iinf.size", i, 4}, FieldSpan{"iinf.count", i + 12, 2})
 		case "infe":
 			h.Map = append(h.Map, FieldSpan{"infe.size", i, 4})
-		case "ipma", "ipco", "iprp", "pitm", "hdlr", "ispe", "iref", "cdsc", "thmb":
+		case "ipma":
+			h.Map = append(h.Map, FieldSpan{"ipma.size", i, 4}, FieldSpan{"ipma.count", i + 12, 4})
+		case "ipco", "iprp", "pitm", "hdlr", "ispe", "iref", "cdsc", "thmb":
 			h.Map = append(h.Map, FieldSpan{string(out[i+4:i+8]) + ".size", i, 4})
 		}
 	}
@@ -1040,6 +1051,8 @@ func ManyTiny(kind, sub, n, junk int) []byte {
 	case 1:
 		one := Box("uuid", uuidPreview, be32(0), be32(1), Box("PRVW", be32(0), be16(1), be16(160), be16(120), be16(1), be32(uint32(junk))))
 		switch sub % 4 {
+		case 3:
+			one = Box("zzzz") // a box type nobody knows
 		case 1:
 			one = Box("uuid") // no room for the uuid itself
 		case 2:
